@@ -483,12 +483,12 @@ Example ex_ops_succeed :
 Proof. repeat split; eexists; vm_compute; reflexivity. Qed.
 Example ex_install_complete :
   vdb_view (run Ex.install_ops Ex.s0) [Ex.v]
-  = VL [VL [VS Ex.c; VS Ex.p1; VL [VNone; VS [48%N]; VS [56%N]; VNone; VNone; VNone; VNone; VNone; VNone; VNone; VNone]];
-        VL [VS Ex.c; VS Ex.p2; VL [VNone; VS [49%N]; VNone; VNone; VNone; VNone; VNone; VNone; VS [100; 10]%N; VNone; VNone]]].
+  = VL [VL [VS Ex.c; VS Ex.p1; VL [VNone; VS [48%N]; VS [56%N]; VNone; VNone; VNone; VNone; VNone; VNone; VNone; VNone; VNone; VNone]];
+        VL [VS Ex.c; VS Ex.p2; VL [VNone; VS [49%N]; VNone; VNone; VNone; VNone; VNone; VNone; VNone; VNone; VS [100; 10]%N; VNone; VNone]]].
 Proof. vm_compute. reflexivity. Qed.
 Example ex_replace_final :
   vdb_view (run Ex.replace_ops Ex.s0) [Ex.v]
-  = VL [VL [VS Ex.c; VS Ex.p2; VL [VNone; VS [49%N]; VNone; VNone; VNone; VNone; VNone; VNone; VS [100; 10]%N; VNone; VNone]]].
+  = VL [VL [VS Ex.c; VS Ex.p2; VL [VNone; VS [49%N]; VNone; VNone; VNone; VNone; VNone; VNone; VNone; VNone; VS [100; 10]%N; VNone; VNone]]].
 Proof. vm_compute. reflexivity. Qed.
 Example ex_replace_window :
   replace_lo [Ex.v] Ex.s0 Ex.c Ex.p2 Ex.items = 10
